@@ -1133,6 +1133,17 @@ Theorem tc_upgrade_effect : forall a using_tcp, a = PaRetryTcp ->
   callback_invoked a = false /\ requeued a = true /\ next_conn_is_tcp (using_tcp_after a using_tcp) = true.
 Proof. intros a u ->. cbn. auto. Qed.
 
+(* the switch to TCP never ends the query and does not consume a try, whatever is left of the
+   retry budget (also on the last permitted attempt, also for a no-retry query) *)
+Theorem tc_upgrade_keeps_budget : forall try_count max_tries no_retries,
+  after_answer PaRetryTcp try_count max_tries no_retries = FRequeued try_count.
+Proof. reflexivity. Qed.
+
+(* ... unlike a SERVFAIL/NOTIMP/REFUSED answer, which ends the query on the last attempt *)
+Example rcode_ends_on_last_attempt : after_answer PaRequeueRcode 0 1 false = FEnded /\
+                                     after_answer PaRetryTcp 0 1 false = FRequeued 0.
+Proof. split; reflexivity. Qed.
+
 (* with IGNTC (or on TCP) the TC bit plays no role in the decision *)
 Theorem tc_ignored : forall found same_q on_conn cookie_ok edns_issue rflags conn_tcp chan_flags rcode,
   conn_tcp = true \/ has_flag chan_flags ARES_FLAG_IGNTC = true ->
